@@ -96,7 +96,11 @@ const QUITS: [&str; 5] = ["q\n", "quit\n", "Q\n", " QUIT \n", "quit\r\n"];
 const GARBAGE_INSTRUCTIONS: [&str; 10] = [
     "inc ax\n", "push bx\n", "stc\n", "mov byte [250], 7\n", "mov ax, 5\n", "hlt\n", "pop cx\n", "mov ds, ax\n", "std\n", "dec sp\n",
 ];
-const GARBAGE: [&str; 16] = [
+const GARBAGE: [&str; 20] = [
+    "next please\n",
+    "n 2\n",
+    "quit it\n",
+    "q x\n",
     "\n",
     "foo\n",
     "nn\n",
